@@ -102,17 +102,17 @@ class BuiltinConverterProvider(ConverterProvider):
     ) -> tuple[str, Mapping[str, object]]:
         builder = CodeBuilder()
         namespace = BuiltinCascadeNamespace(occupied={*signature.parameters.keys(), closure_name})
-        namespace.add_outer_constant("_closure_signature", signature)
-        namespace.add_outer_constant("_stub_function", stub_function)
-        namespace.add_outer_constant("_update_wrapper", update_wrapper)
+        # name of closure can coincide with any name, so constants of the module are mangled
+        signature_var = self._register_mangled(namespace, "_closure_signature", signature)
+        stub_function_var = self._register_mangled(namespace, "_stub_function", stub_function)
+        update_wrapper_var = self._register_mangled(namespace, "_update_wrapper", update_wrapper)
         coercer_var = self._register_mangled(namespace, "coercer", coercer)
 
         no_types_parameters = []
         for idx, param in enumerate(signature.parameters.values()):
             if param.default is not Signature.empty:
                 # default is passed as constant, repr of arbitrary object must not be rendered to source code
-                default_name = f"_default_{idx}"
-                namespace.add_outer_constant(default_name, param.default)
+                default_name = self._register_mangled(namespace, f"_default_{idx}", param.default)
                 param = param.replace(default=_ConstantRef(default_name))  # noqa: PLW2901
             no_types_parameters.append(param.replace(annotation=Signature.empty))
         no_types_signature = signature.replace(
@@ -128,8 +128,8 @@ class BuiltinConverterProvider(ConverterProvider):
             """,
         )
         if stub_function is not None:
-            builder += f"_update_wrapper({closure_name}, _stub_function)"
-        builder += f"{closure_name}.__signature__ = _closure_signature"
+            builder += f"{update_wrapper_var}({closure_name}, {stub_function_var})"
+        builder += f"{closure_name}.__signature__ = {signature_var}"
         builder += f"{closure_name}.__name__ = {function_name!r}"
         return builder.string(), namespace.all_constants
 
